@@ -69,10 +69,13 @@ def _slots_finder(clazz, fields_set):
     :param fields_set: Set where to store __slots___ content
     """
     # ... class level
-    try:
-        fields_set.update(clazz.__slots__)
-    except AttributeError:
-        pass
+    # (only the slots declared by this class: inherited ones are found while
+    # visiting the parent classes, with the name of their own class)
+    for slot in vars(clazz).get("__slots__", ()):
+        if slot.startswith("__") and not slot.endswith("__"):
+            # Private slot: the attribute has a mangled name
+            slot = "_{0}{1}".format(clazz.__name__.lstrip("_"), slot)
+        fields_set.add(slot)
 
     # ... parent classes level
     for base_class in clazz.__bases__:
